@@ -71,7 +71,13 @@ func VerifH_unary() {
 		gotCtx, gotMethod, gotReq, gotReply, gotCC, gotOpts = ctx, m, rq, rp, c, o
 		return invErr
 	}
-	err := GCPUnaryClientInterceptor(parent, method, req, reply, cc, inv, opts...)
+	// the caller's context may name a MultiEndpoint (NewMEContext): one more caller's value to preserve
+	var callCtx context.Context = parent
+	hasME := verifBool("callerNamesMultiEndpoint")
+	if hasME {
+		callCtx = NewMEContext(parent, "me-x")
+	}
+	err := GCPUnaryClientInterceptor(callCtx, method, req, reply, cc, inv, opts...)
 	verifReach("after")
 	verifAssert(calls == 1, "C12: unary interceptor did not call the invoker exactly once")
 	verifAssert(err == invErr, "C12: unary interceptor did not return the invoker's error")
@@ -85,6 +91,8 @@ func VerifH_unary() {
 	g, ok := gotCtx.Value(gcpKey).(*gcpContext)
 	verifAssert(ok && g != nil && g.reqMsg == interface{}(req) && g.replyMsg == interface{}(reply), "C12: picker cannot see the request and reply objects")
 	verifAssert(gotCtx.Value(vUserKey{}) == interface{}(parent.userVal), "C12: caller's context value lost")
+	meName, meOK := FromMEContext(gotCtx)
+	verifAssert(meOK == hasME && (!hasME || meName == "me-x"), "C12: the MultiEndpoint name in the caller's context is not preserved by the interceptor")
 	dl, has := gotCtx.Deadline()
 	verifAssert(has == parent.hasDl && (!has || dl == parent.dl), "C12: caller's deadline lost")
 	verifObserve("calls", uint64(calls))
